@@ -113,9 +113,20 @@ vget_dir(const char *domain, struct userconf *ds)
 
 	/* format of cdb_buf is :
 	 * realdomain\0uid\0gid\0path\0
-	 */
-	for (int i = 3; i > 0; i--)
-		cdb_buf += strlen(cdb_buf) + 1;
+	 * The record may be damaged: every field must end inside the file. */
+	const char * const cdb_end = cdb_mmap + st.st_size;
+	for (int i = 4; i > 0; i--) {
+		const char *fieldend = memchr(cdb_buf, '\0', cdb_end - cdb_buf);
+
+		if (fieldend == NULL) {
+			munmap(cdb_mmap, st.st_size);
+			err_control("users/cdb");
+			return -EDONE;
+		}
+		/* stop at the beginning of the 4th field */
+		if (i > 1)
+			cdb_buf = fieldend + 1;
+	}
 
 	/* get the domain directory */
 	len = strlen(cdb_buf);
